@@ -17,11 +17,12 @@ EXPLANATION = (
     "raw labels from _get_labels_per_values only); R-history-complete (in _test_viability the "
     "historization call is executed on every iteration before the loop can break or continue, the raw "
     "distribution is historized before the search, and the 'not checked' tail is exactly "
-    "associations_xagg[n_combination + 1:] of the accepted combination); R-history-fields (each "
+    "associations_xagg[n_combination + 1:] of the accepted combination; the order applied and stored in "
+    "values_orders is the accepted combination's); R-history-fields (each "
     "history record carries combination, the sort_by value, viability and message)."
 )
 NOT_DECIDED = "agreement of summary contents with transform outputs on data"
-FLOORS = {"R-summary-scope": 3, "R-single-table": 2, "R-history-complete": 4, "R-history-fields": 1}
+FLOORS = {"R-summary-scope": 3, "R-single-table": 2, "R-history-complete": 6, "R-history-fields": 1}
 
 
 def _emits(node, sink="summaries"):
@@ -138,7 +139,35 @@ def rule_history_fields(ctx):
     ctx.ob(R, construct(fh, "record = {combination, <sort_by>: its association value, viability, viability_message, ...}"), ok, loc(fh, dicts[0] if dicts else None))
 
 
+def rule_viable_is_fitted(ctx):
+    """The combination historized as viable is the one that becomes the fitted grouping."""
+    R = "R-history-complete"
+    fa = ctx.repo.find_function(f"{F_BC}::BaseCarver._get_best_association")
+    cfg = cfg_of(ctx, fa)
+    ap = calls(fa, "order_apply_combination")
+    ok = False
+    if len(ap) == 1:
+        conds = _flatten_conditions(cfg.path_conditions(ap[0]))
+        ok = [unparse(a) for a in ap[0].args] == ["order", "best_association['combination']"] and [(cmp_canon(t), pol) for t, pol in conds] == [(("best_association", "is not", "None"), True)]
+        par = cfg.parent(ap[0])
+        ok = ok and isinstance(par, ast.Assign) and unparse(par.targets[0]) == "order"
+    rets = [r for r in walk_no_nested(fa.node) if isinstance(r, ast.Return)]
+    ok = ok and len(rets) == 1 and unparse(rets[0].value) == "(best_association, order)"
+    ctx.ob(R, construct(fa, "the order returned is the accepted (historized viable) combination applied to the order"), ok, loc(fa))
+    fc = ctx.repo.find_function(f"{F_BC}::BaseCarver._carve_feature")
+    up = calls(fc, "_update_orders")
+    cfg2 = cfg_of(ctx, fc)
+    ok = len(up) == 1 and [unparse(a) for a in up[0].args] == ["feature", "order", "labels_orders"]
+    if ok:
+        conds = _flatten_conditions(cfg2.path_conditions(up[0]))
+        ok = [(cmp_canon(t), pol) for t, pol in conds] == [(("best_combination", "is not", "None"), True)]
+        un = [n for n in walk_no_nested(fc.node) if isinstance(n, ast.Assign) and isinstance(n.targets[0], ast.Tuple) and unparse(n.value) == "best_combination"]
+        ok = ok and len(un) == 1 and unparse(un[0].targets[0].elts[0]) == "order" and cfg2.before(un[0], up[0])
+    ctx.ob(R, construct(fc, "values_orders are updated with exactly that order"), ok, loc(fc))
+
+
 def check(ctx):
+    rule_viable_is_fitted(ctx)
     rule_summary_scope(ctx)
     rule_single_table(ctx)
     rule_history_complete(ctx)
@@ -154,6 +183,7 @@ MUTANTS = [
     M("only viable combinations historized", [(F_BC, "            # historizing combinations and tests\n            self._historize_viability_test(\n                feature=feature,\n                association=association,\n                order=order,\n                n_combination=n_combination,\n                associations_xagg=associations_xagg,\n                dropna=dropna,\n                verbose=self.verbose,\n                **test_results,\n            )\n",
        "            # historizing combinations and tests\n            if train_viable:\n                self._historize_viability_test(\n                    feature=feature,\n                    association=association,\n                    order=order,\n                    n_combination=n_combination,\n                    associations_xagg=associations_xagg,\n                    dropna=dropna,\n                    verbose=self.verbose,\n                    **test_results,\n                )\n")], "R-history-complete", "every tested"),
     M("not-checked tail includes the accepted combination", [(F_BC, "associations_not_checked = associations_xagg[n_combination + 1 :]", "associations_not_checked = associations_xagg[n_combination:]")], "R-history-complete", "Not checked"),
+    M("fitted grouping taken from the best-ranked instead of the accepted combination", [(F_BC, "            order = order_apply_combination(order, best_association[\"combination\"])", "            order = order_apply_combination(order, associations_xagg[0][\"combination\"])")], "R-history-complete", "accepted"),
     M("raw distribution not historized", [(F_BC, "            self._historize_viability_test(feature, raw_association, order)\n", "")], "R-history-complete", "raw distribution"),
     M("history stores the best value instead of the combination's", [(F_BC, "                self.sort_by: asso[self.sort_by],", "                self.sort_by: association[self.sort_by],")], "R-history-fields"),
 ]
